@@ -131,14 +131,14 @@ Definition plane_init (amp : aattr) (opd : oattr) (mask : mraw) (pix : pixraw) (
 
 (* Plane.size *)
 Definition psize (m : pmask) : nat := match m with PM3 _ _ l => length l | _ => 1%nat end.
-(* Plane.shape: () for a 0-d mask, the mask's shape if size == 1 (a 3-tuple for a one-layer cube!),
-   else the trailing two dimensions of the cube *)
-Inductive pshape := Sh0 | Sh2 (n m : Z) | Sh3 (k n m : Z).
+(* Plane.shape: the mask's shape if mask.ndim < 3 (() for a 0-d mask), else the trailing two dimensions
+   of the cube (fix: a one-layer cube is a segmented plane with one segment) *)
+Inductive pshape := Sh0 | Sh2 (n m : Z).
 Definition plane_shape (m : pmask) : pshape :=
   match m with
   | PM0 _ => Sh0
   | PM2 a => Sh2 (pnr a) (pnc a)
-  | PM3 n m l => if Nat.eqb (length l) 1 then Sh3 1 n m else Sh2 n m
+  | PM3 n m l => Sh2 n m
   end.
 
 (* ---- the wavefront ---- *)
@@ -156,25 +156,26 @@ Definition pwf_init (lam : Qc) (pix : pixraw) (foc : option Qc) (tl : list tilt)
         [mkField (D0 k1) 0 0 tl].
 
 (* ---- Plane.multiply: the phasor of segment n ---- *)
-(* mask seen by the loop body: self.mask if size == 1 else self.mask[n] *)
+(* mask seen by the loop body: self.mask if mask.ndim < 3 else self.mask[n] *)
 Inductive msk1 := MK0 (b : bool) | MK2 (m : garr bool).
 
-(* amp = amplitude if mask.size == 1 else amplitude * mask[s]     (amplitude.size == 1)
-   amp = amplitude[s] * mask[s]                                   (otherwise)
+(* amp = amplitude * mask if mask.size == 1 else amplitude * mask[s]     (amplitude.size == 1; fix: a
+                                                                          one-element mask is applied too)
+   amp = amplitude[s] * mask[s]                                          (otherwise)
    Array attributes are required to have the shape of the mask; numpy's behaviour for other shapes
    (clipped slices, broadcasting) is outside the model: ValueError. *)
 Definition amp_data (a : aattr) (mk : msk1) (s : pslice) : result (fdata S) :=
   match a with
   | AmpS v =>
       match mk with
-      | MK0 _ => Ok (D0 v)
+      | MK0 b => Ok (D0 (v * kofb b)%K)
       | MK2 m =>
-          if pnr m * pnc m =? 1 then Ok (D0 v)
-          else match s with
-               | SBox r0 r1 c0 c1 =>
-                   Ok (D2 (mkArr (r1 - r0) (c1 - c0) (fun i j => (v * kofb (pget m (i + r0) (j + c0)))%K)))
-               | SAll => Err ValueError
-               end
+          (* a 1 x 1 mask has the bounding slice [0:1, 0:1]: amplitude * mask and amplitude * mask[s] coincide *)
+          match s with
+          | SBox r0 r1 c0 c1 =>
+              Ok (D2 (mkArr (r1 - r0) (c1 - c0) (fun i j => (v * kofb (pget m (i + r0) (j + c0)))%K)))
+          | SAll => Err ValueError
+          end
       end
   | AmpA A =>
       match mk, s with
@@ -241,10 +242,7 @@ Definition plane_phasors (P : plane) (lam : Qc) : result (list (field S)) :=
   match pl_mask P with
   | PM0 b => phasors_from P lam 0 0 0 [MK0 b] (pl_slices P)
   | PM2 m => phasors_from P lam (pnr m) (pnc m) 0 [MK2 m] (pl_slices P)
-  | PM3 n m l =>
-      if Nat.eqb (length l) 1
-      then Err ValueError       (* size == 1: `mask` is the 3-d cube and `shape` a 3-tuple; numpy refuses *)
-      else phasors_from P lam n m 0 (map MK2 l) (pl_slices P)
+  | PM3 n m l => phasors_from P lam n m 0 (map MK2 l) (pl_slices P)
   end.
 
 (* for field in data: for n, s in enumerate(self._slice): res = field * phasor; keep if res.size > 0 *)
@@ -254,7 +252,7 @@ Definition mul_fields (phs fs : list (field S)) : list (field S) :=
 
 Definition plane_multiply (P : plane) (w : pwf) : result pwf :=
   rbind (mul_pixelscale (pl_pix P) (pw_pix w)) (fun px =>
-  let shape := match plane_shape (pl_mask P) with Sh0 => pw_shape w | Sh2 n m => Some (n, m) | Sh3 _ n m => Some (n, m) end in
+  let shape := match plane_shape (pl_mask P) with Sh0 => pw_shape w | Sh2 n m => Some (n, m) end in
   rbind (match pw_data w with [] => Ok [] | _ => plane_phasors P (pw_lam w) end) (fun phs =>
   Ok (mkPwf (pw_lam w) px
             (match pl_focal P with Some f => f | None => focal_truthy (pw_focal w) end)   (* Pupil.multiply *)
@@ -310,37 +308,34 @@ Definition fsized (f : field S) : Prop :=
 Definition attr_compat (P : plane) (n m : Z) : Prop :=
   (match pl_amp P with AmpA A => nr A = n /\ nc A = m | AmpS _ => True end) /\
   (match pl_opd P with OpdA o => pnr o = n /\ pnc o = m | OpdS _ => True end).
-Definition slice_big (s : pslice) : Prop :=
-  match s with SBox r0 r1 c0 c1 => (r1 - r0) * (c1 - c0) <> 1 | SAll => True end.
 
-(* shape of a plane with an array mask (a one-layer cube has no usable shape) *)
+(* shape of a plane with an array mask *)
 Definition plane_dims (mk : pmask) : option (Z * Z) :=
   match mk with
   | PM0 _ => None
   | PM2 a => Some (pnr a, pnc a)
-  | PM3 n m l => if Nat.eqb (length l) 1 then None else Some (n, m)
+  | PM3 n m l => Some (n, m)
   end.
 
 (* a plane with an array mask whose slices are those computed from the mask (the constructor's
-   invariant), whose array attributes have the mask's shape and whose slices hold more than one sample *)
+   invariant) and whose array attributes have the mask's shape *)
 Record plane_ok (P : plane) (n m : Z) : Prop := {
   ok_dims : plane_dims (pl_mask P) = Some (n, m);
   ok_slices : plane_slice (pl_mask P) = Ok (pl_slices P);
   ok_layers : forall a, In a (masks_of (pl_mask P)) -> pnr a = n /\ pnc a = m;
-  ok_attr : attr_compat P n m;
-  ok_big : Forall slice_big (pl_slices P)
+  ok_attr : attr_compat P n m
 }.
 
-(* sum of the fields, one-element fields (the 0-d plane wave) read as infinite constants *)
+(* sum of the fields, 0-d fields (the plane wave of a fresh Wavefront) read as infinite constants *)
 Definition ec_sum (fs : list (field S)) (r c : Z) : S :=
   fold_right (fun f acc => (embed_const f r c + acc)%K) k0 fs.
 
-Definition plane_scalar (P : plane) (v : S) (q : Qc) : Prop :=
-  pl_amp P = AmpS v /\ pl_opd P = OpdS q /\ (exists b, pl_mask P = PM0 b) /\ pl_slices P = [SAll].
+Definition plane_scalar (P : plane) (v : S) (q : Qc) (b : bool) : Prop :=
+  pl_amp P = AmpS v /\ pl_opd P = OpdS q /\ pl_mask P = PM0 b /\ pl_slices P = [SAll].
 
-(* one-element fields of the wavefront sit at the origin (the plane wave of a fresh Wavefront) *)
+(* 0-d fields of the wavefront sit at the origin (the plane wave of a fresh Wavefront) *)
 Definition origin_consts (fs : list (field S)) : Prop :=
-  forall f, In f fs -> (dsize (fd f) =? 1) = true -> offr f = 0 /\ offc f = 0.
+  forall f, In f fs -> is0d (fd f) = true -> offr f = 0 /\ offc f = 0.
 
 Definition disjoint_masks (l : list (garr bool)) : Prop :=
   ForallOrdPairs (fun a b => forall i j, mask_at a i j && mask_at b i j = false) l.
@@ -355,12 +350,12 @@ Definition partition_of (Pseg Pmono : plane) (n m : Z) : Prop :=
   exists g, pl_mask Pmono = PM2 g /\
     forall i j, mask_at g i j = existsb (fun a => mask_at a i j) (masks_of (pl_mask Pseg)).
 
-Definition no_ones (fs : list (field S)) : Prop := forall f, In f fs -> fwell f /\ (dsize (fd f) =? 1) = false.
-
-Inductive regular_chain : list (plane) -> pwf -> pwf -> Prop :=
-| rc_nil w : regular_chain [] w w
-| rc_cons P ps w w' w'' : plane_multiply P w = Ok w' -> no_ones (pw_data w') -> regular_chain ps w' w'' ->
-    regular_chain (P :: ps) w w''.
+(* Wavefront(...) * P1 * ... * Pk *)
+Fixpoint chain_multiply (ps : list plane) (w : pwf) : result pwf :=
+  match ps with
+  | [] => Ok w
+  | P :: r => rbind (plane_multiply P w) (chain_multiply r)
+  end.
 
 Definition same_optics (P1 P2 : plane) : Prop :=
   pl_pix P1 = pl_pix P2 /\ pl_focal P1 = pl_focal P2 /\
@@ -384,5 +379,5 @@ Arguments pwf_field {S}. Arguments pwf_intensity {S}. Arguments pwf_insert {S}. 
 Arguments cover {S}. Arguments transmission {S}.
 Arguments mask_at : simpl never.
 Arguments fwell {S}. Arguments fsized {S}. Arguments attr_compat {S}. Arguments plane_ok {S}. Arguments ec_sum {S}.
-Arguments plane_scalar {S}. Arguments origin_consts {S}. Arguments partition_of {S}. Arguments no_ones {S}.
-Arguments regular_chain {S}. Arguments same_optics {S}. Arguments wf_equiv {S}.
+Arguments plane_scalar {S}. Arguments origin_consts {S}. Arguments partition_of {S}. Arguments chain_multiply {S}.
+Arguments same_optics {S}. Arguments wf_equiv {S}.
